@@ -29,6 +29,7 @@ M = [
  ("MCEbr.tla", "MC_C14_pinadv.cfg", [(r'Mut = \{\}', 'Mut = {"AdvanceBy2"}')], "epoch moves by two", "ObsMono"),
  ("MCEbr.tla", "MC_C13_nested.cfg", [(r'Mut = \{\}', 'Mut = {"CollectUnexpired"}')], "collect pops unexpired bags", "random ebr"),
  ("MCEbr.tla", "MC_C15_exit.cfg", [(r'Mut = \{\}', 'Mut = {"FinalizeDropsBag"}')], "finalize drops the local bag", "dir:exit_with_garbage"),
+ ("MCEbr.tla", "MC_C15_exit.cfg", [(r'Mut = \{\}', 'Mut = {"NeverCollect"}')], "collect never pops a bag (liveness)", "ObsAllRan"),
  ("MCEbr.tla", "MC_C16_guards.cfg", [(r'Mut = \{\}', 'Mut = {"UnpinInnerClears"}')], "dropping an inner guard clears the pinned bit", "dir:guard_program"),
  ("MSQueue.tla", "MC_C17_queue.cfg", [(r'Mut = \{\}', 'Mut = {"NoTailFixup"}')], "pop without tail fix-up", "ObsTail"),
  ("MSQueue.tla", "MC_C17_queue.cfg", [(r'Mut = \{\}', 'Mut = {"PopIfRetryUnconditional"}'), (r'PopsPer = 1', 'PopsPer = 2')], "try_pop_if retries without the predicate", "ObsPopIf"),
@@ -50,7 +51,7 @@ def main():
         meta = tempfile.mkdtemp(prefix="tlcmut")
         p = subprocess.run(["timeout", "900", "tlc", "-workers", "8", "-metadir", meta, "-cleanup", "-noGenerateSpecTE", "-config", tmp, spec], cwd=SPECS, stdout=subprocess.PIPE, stderr=subprocess.STDOUT, text=True)
         subprocess.run(["rm", "-rf", meta])
-        m = re.search(r"Error: (?:Invariant|Action property) (\w+) is violated", p.stdout)
+        m = re.search(r"Error: (?:Invariant|Action property) (\w+) is violated", p.stdout) or re.search(r"Error: Temporal property (\w+) was violated", p.stdout)
         temporal = "Temporal properties were violated" in p.stdout
         states = re.search(r"(\d+) states generated, (\d+) distinct", p.stdout)
         depth = len(re.findall(r"^State \d+:", p.stdout, re.M))
